@@ -5,6 +5,7 @@ import Passage.Driver.C13
 import Passage.Driver.C18
 import Passage.Driver.C05
 import Passage.Driver.Conn
+import Passage.Driver.C12
 import Passage.Crypto.SelfTest
 /-
   passage-model: reads one request per line on stdin, prints one answer per line.
@@ -13,7 +14,7 @@ import Passage.Crypto.SelfTest
 open Passage.Driver
 
 def handlers : List (List String → Option String) :=
-  [C11.handle, C09.handle, C13.handle, C18.handle, C05.handle, Conn.handle]
+  [C11.handle, C09.handle, C13.handle, C18.handle, C05.handle, Conn.handle, C12.handle]
 
 def dispatch (toks : List String) : String :=
   match handlers.findSome? (fun h => h toks) with
